@@ -188,6 +188,31 @@ func main() {
 			})
 			e.Strs("makeFetchReqFilter", lits, "search.Ingestor.makeFetchReq: the FieldsFilter of the request sent to a store")
 		}
+		// ---- every fetch request the proxy sends to a store is built by makeFetchReq (which carries the filter)
+		{
+			var builders, fetchArgs []string
+			for _, d := range g.AST.Decls {
+				fd, ok := d.(*ast.FuncDecl)
+				if !ok || fd.Body == nil {
+					continue
+				}
+				ast.Inspect(fd.Body, func(n ast.Node) bool {
+					switch x := n.(type) {
+					case *ast.CompositeLit:
+						if t := g.Render(x.Type); t == "storeapi.FetchRequest" {
+							builders = append(builders, fd.Name.Name)
+						}
+					case *ast.CallExpr:
+						if sel, ok := x.Fun.(*ast.SelectorExpr); ok && sel.Sel.Name == "Fetch" && len(x.Args) >= 2 && strings.Contains(g.Render(sel.X), "client") {
+							fetchArgs = append(fetchArgs, fd.Name.Name+": "+g.Render(x.Args[1]))
+						}
+					}
+					return true
+				})
+			}
+			e.Strs("storeFetchReqBuilders", builders, "proxy/search/ingestor.go: functions that construct a storeapi.FetchRequest")
+			e.Strs("storeFetchCallArgs", fetchArgs, "proxy/search/ingestor.go: the request argument of every store client Fetch call")
+		}
 		// ---- keyword recognition of the pipe parser: case-insensitive, never a quoted token
 		if h, err := r.Load("parser/seqql_pipes.go"); err != nil {
 			e.Missing("seqql_pipes.go", err)
